@@ -383,9 +383,13 @@ class Oracle:
                 m = self.modes[dslot]
                 nd = {}
                 for rec in o[1:]:
-                    ks, vs = rec.split("=")
-                    kh, kc = ks.split(":")
-                    kb = unhex(kh)
+                    try:
+                        ks, vs = rec.split("=")
+                        kh, kc = ks.split(":")
+                        kb = unhex(kh)
+                    except ValueError:
+                        bad("the scan of the database breaks off with `%s`" % rec[:60])
+                        return
                     lk = (int.from_bytes(kb, "little"), int(kc)) if m[0] == "1" else (kb, int(kc))
                     nd[lk] = unhex(vs)
                 self.db[dslot] = nd
